@@ -13,13 +13,15 @@ class GopherProtocol(BaseGopherProtocol):
         return True
 
     def renderobjinfo(self, entry):
+        # TAB, CR and LF delimit the fields and lines of a menu; a file name
+        # that contains them must not be able to start a line of its own.
         retval = (
             entry.gettype("0")
-            + entry.getname()
+            + self.menufield(entry.getname())
             + "\t"
-            + entry.getselector()
+            + self.menufield(entry.getselector())
             + "\t"
-            + entry.gethost(default=self.server.server_name)
+            + self.menufield(entry.gethost(default=self.server.server_name))
             + "\t"
             + str(entry.getport(default=self.server.server_port))
         )
@@ -27,6 +29,10 @@ class GopherProtocol(BaseGopherProtocol):
             return retval + "\t+\r\n"
         else:
             return retval + "\r\n"
+
+    @staticmethod
+    def menufield(text):
+        return text.replace("\t", " ").replace("\r", " ").replace("\n", " ")
 
 
 class SecureGopherProtocol(GopherProtocol):
